@@ -302,7 +302,7 @@ def run(tier, seed):
 
 def replay(path, seed):
     """A stored trace is re-validated; a stored script is re-executed against the current tree first."""
-    c = Check(PROP, "quick", seed, "model_checking")
+    c = Check(PROP, "quick", seed, "model_checking", replay=True)
     path = os.path.abspath(path)
     first = vlib.read_ndjson(path)[0]
     if "ops" in first:
